@@ -15,6 +15,14 @@
 //   {"k":"i2h","x":[..]}              integer -> half
 //   {"k":"imin","t":[..]}             most negative value of signed char/short/int/long/long long (t = 0..4) -> half
 //   {"k":"fma","x":[..],"y":[..],"z":[..]}
+//   {"k":"tri","f":"hypot3","x":[..],"y":[..],"z":[..]}   hypot(x, y, z)
+//   {"k":"pair","f":F,"x":[..],"y":[..]}   binary F on explicit operand pairs (x[j], y[j])
+//   {"k":"sf2h","hi":[..],"lo":[..]}   operator>> applied to the exact decimal expansion of a finite float
+//   {"k":"lim","t":[..]}               item t of the numeric_limits<half> / macro / nanh table below
+//   {"k":"lit","t":[..]}               item t of the table of _h literals below
+// Any row may carry "rm": 1 upward, 2 downward, 3 toward zero - the thread's rounding direction while it is evaluated.
+// A row that uses more than VERIF_HALF_ROW_LIMIT (default 20) seconds of CPU ends the table with a Crash line
+// ("why":"timeout"): a call that does not return is an observation, not a reason to lose the run.
 //
 // Built twice by the checks: -mf16c (HALF_ENABLE_F16C_INTRINSICS on) and -mno-f16c.
 #include <cstdint>
@@ -27,6 +35,10 @@
 #include <vector>
 #include <iostream>
 #include <functional>
+#include <sstream>
+#include <iomanip>
+#include <limits>
+#include <sys/time.h>
 #include "vjson.hpp"
 #include "xtl/xhalf_float.hpp"
 
@@ -96,6 +108,87 @@ static const char* RN[8] = {"r", "r2", "r3", "r4", "r5", "r6", "r7", "r8"};
 static int fpclass_code(int c)
 {
     return c == FP_ZERO ? 0 : c == FP_SUBNORMAL ? 1 : c == FP_NORMAL ? 2 : c == FP_INFINITE ? 3 : c == FP_NAN ? 4 : 5;
+}
+
+// ------------------------------------------------------------------ tables of constants
+static bool limits_item(long long t, long long& out)
+{
+    typedef std::numeric_limits<half> L;
+    switch (t)
+    {
+    case 0: out = L::is_specialized; return true;
+    case 1: out = L::is_signed; return true;
+    case 2: out = L::is_integer; return true;
+    case 3: out = L::is_exact; return true;
+    case 4: out = L::is_bounded; return true;
+    case 5: out = L::is_iec559; return true;
+    case 6: out = L::has_infinity; return true;
+    case 7: out = L::has_quiet_NaN; return true;
+    case 8: out = L::has_signaling_NaN; return true;
+    case 9: out = L::has_denorm == std::denorm_present; return true;
+    case 10: out = L::round_style == std::round_to_nearest; return true;
+    case 11: out = L::digits; return true;
+    case 12: out = L::digits10; return true;
+    case 13: out = L::max_digits10; return true;
+    case 14: out = L::radix; return true;
+    case 15: out = L::min_exponent; return true;
+    case 16: out = L::min_exponent10; return true;
+    case 17: out = L::max_exponent; return true;
+    case 18: out = L::max_exponent10; return true;
+    case 19: out = bits(L::min()); return true;
+    case 20: out = bits(L::lowest()); return true;
+    case 21: out = bits(L::max()); return true;
+    case 22: out = bits(L::epsilon()); return true;
+    case 23: out = bits(L::round_error()); return true;
+    case 24: out = bits(L::infinity()); return true;
+    case 25: out = bits(L::quiet_NaN()); return true;
+    case 26: out = bits(L::signaling_NaN()); return true;
+    case 27: out = bits(L::denorm_min()); return true;
+    case 28: out = bits(HUGE_VALH); return true;
+    case 29: out = HLF_ROUNDS; return true;
+    case 30: out = bits(half_float::nanh("")); return true;
+    case 31: out = bits(half_float::nanh("1")); return true;
+    case 32: out = bits(half_float::nanh("abc")); return true;
+    case 33: out = bits(half_float::nanh("0x7fffffffffffffff\xff\x80")); return true;
+    case 34: out = sizeof(half) == 2; return true;
+    case 35: { half z; half v = half(); out = bits(z) | bits(v); return true; }
+    case 36: out = L::traps; return true;
+    case 37: out = L::tinyness_before; return true;
+    case 38: out = L::is_modulo; return true;
+    case 39: out = L::has_denorm_loss; return true;
+    }
+    return false;
+}
+
+// _h literals: every literal below is exactly representable as a double, so the double names the literal's value
+struct Lit { double value; long long bits16; };
+static const std::vector<Lit>& literals()
+{
+    using namespace half_float::literal;
+#define LIT(x) { (double)x##L, (long double)(double)x##L == x##L ? bits(x##_h) : -1 }      // -1: not exact as a double, the table is wrong
+    static const std::vector<Lit> T = {
+        LIT(0.0), LIT(1.0), LIT(0.5), LIT(1.5), LIT(2.0), LIT(3.0), LIT(1000.0), LIT(65504.0), LIT(65519.0), LIT(65519.9990234375), LIT(65520.0),
+        LIT(65520.00000095367431640625), LIT(65536.0), LIT(100000.0), LIT(1267650600228229401496703205376.0),
+        LIT(0.0000000000000000000000000000007888609052210118054117285652827862296732064351090230047702789306640625), LIT(0.00006103515625),
+        LIT(0.000030517578125), LIT(0.000060975551605224609375), LIT(0.000000059604644775390625), LIT(0.0000000298023223876953125),
+        LIT(0.0000000298023223876961595329472543003390683225006796419620513916015625),
+        LIT(0.0000000298023223876944654670527456996609316774993203580379486083984375), LIT(0.0000000894069671630859375),
+        LIT(0.000000089406967162218575762011596452794037759304046630859375), LIT(0.00000001490116119384765625), LIT(1.00048828125), LIT(1.00146484375),
+        LIT(1.0004882812500002220446049250313080847263336181640625), LIT(1.0004882812499997779553950749686919152736663818359375),
+        LIT(1.0014648437499997779553950749686919152736663818359375), LIT(2049.0), LIT(2051.0), LIT(2050.0), LIT(4098.0), LIT(1023.5), LIT(1024.5),
+        LIT(1025.5), LIT(0.99951171875), LIT(0.999755859375), LIT(0.9998779296875), LIT(32752.0), LIT(32760.0), LIT(0.0000610053539276123046875),
+        LIT(0.00006102025508880615234375), LIT(0.333251953125), LIT(4.00390625)
+    };
+#undef LIT
+    return T;
+}
+
+// the exact decimal expansion of a finite float (glibc prints all digits that are asked for)
+static std::string exact_text(float f)
+{
+    char buf[400];
+    std::snprintf(buf, sizeof buf, "%.200g", (double)f);
+    return buf;
 }
 
 // ------------------------------------------------------------------ unary
@@ -174,6 +267,20 @@ static bool unary(const std::string& f, half h, Out& o)
         return true;
     }
     U1("logb", logb(h))
+    U1("cbrt_full", cbrt(h))
+    if (f == "stream")
+    {
+        std::ostringstream os;
+        os << std::setprecision(9) << h;                 // operator<<
+        const std::string text = os.str();
+        float back = std::strtof(text.c_str(), nullptr);
+        std::istringstream is(text);
+        half again = mk(0x1234);
+        bool ok = static_cast<bool>(is >> again);        // operator>>
+        o.r[0].push_back(fbits(back) >> 16); o.r[1].push_back(fbits(back) & 0xFFFF);
+        o.r[2].push_back(bits(again)); o.r[3].push_back(ok ? 1 : 0);
+        return true;
+    }
     U1("exp", exp(h)) U1("exp2", exp2(h)) U1("expm1", expm1(h)) U1("log", log(h)) U1("log10", log10(h)) U1("log2", log2(h)) U1("log1p", log1p(h))
     U1("cbrt", cbrt(h)) U1("sin", sin(h)) U1("cos", cos(h)) U1("tan", tan(h)) U1("asin", asin(h)) U1("acos", acos(h)) U1("atan", atan(h))
     U1("sinh", sinh(h)) U1("cosh", cosh(h)) U1("tanh", tanh(h)) U1("asinh", asinh(h)) U1("acosh", acosh(h)) U1("atanh", atanh(h))
@@ -218,6 +325,21 @@ static bool binary(const std::string& f, half a, half b, Out& o)
     return false;
 }
 
+// a row that does not return: close the table with a Crash line (no row kind of HalfCheck.tla matches it)
+static void on_row_timeout(int)
+{
+    std::fflush(stdout);
+    vj::crash_line("timeout");
+    _exit(0);
+}
+static void arm_row_limit(long seconds)
+{
+    struct itimerval it;
+    std::memset(&it, 0, sizeof it);
+    it.it_value.tv_sec = seconds;
+    setitimer(ITIMER_VIRTUAL, &it, nullptr);
+}
+
 static long double moved(half h, int d)
 {
     long double y = half_cast<long double>(h);
@@ -253,6 +375,9 @@ static void emit(const vj::value& req, const Out& o)
 int main()
 {
     vj::install_crash_handlers();
+    std::signal(SIGVTALRM, on_row_timeout);
+    const char* lim = std::getenv("VERIF_HALF_ROW_LIMIT");
+    const long row_limit = lim && std::atol(lim) > 0 ? std::atol(lim) : 20;
     std::ios::sync_with_stdio(false);
     std::string line;
     ivec S, E;
@@ -261,6 +386,7 @@ int main()
     {
         ++nline;
         if (line.empty()) continue;
+        arm_row_limit(row_limit);
         vj::value req = vj::parse(line);
         const std::string& k = req.str("k");
         Out o;
@@ -362,6 +488,47 @@ int main()
             for (size_t j = 0; j < x.size(); ++j)
                 o.r[0].push_back(bits(half_float::fma(mk((unsigned)x[j]), mk((unsigned)y[j]), mk((unsigned)z[j]))));
         }
+        else if (k == "tri")
+        {
+            ivec x = req.ints("x"), y = req.ints("y"), z = req.ints("z");
+            ok = req.str("f") == "hypot3";
+            for (size_t j = 0; j < x.size() && ok; ++j)
+                o.r[0].push_back(bits(half_float::hypot(mk((unsigned)x[j]), mk((unsigned)y[j]), mk((unsigned)z[j]))));
+        }
+        else if (k == "pair")
+        {
+            const std::string& f = req.str("f");
+            ivec x = req.ints("x"), y = req.ints("y");
+            for (size_t j = 0; j < x.size() && ok; ++j) ok = binary(f, mk((unsigned)x[j]), mk((unsigned)y[j]), o);
+        }
+        else if (k == "sf2h")
+        {
+            ivec hi = req.ints("hi"), lo = req.ints("lo");
+            for (size_t j = 0; j < hi.size(); ++j)
+            {
+                std::istringstream is(exact_text(mkfloat((unsigned)hi[j], (unsigned)lo[j])));
+                half a = mk(0x1234);
+                bool good = static_cast<bool>(is >> a);      // operator>>
+                o.r[0].push_back(bits(a)); o.r[1].push_back(good ? 1 : 0);
+            }
+        }
+        else if (k == "lim")
+        {
+            ivec t = req.ints("t");
+            for (size_t j = 0; j < t.size() && ok; ++j) { long long v = 0; ok = limits_item(t[j], v); o.r[0].push_back(clip(v)); }
+        }
+        else if (k == "lit")
+        {
+            ivec t = req.ints("t");
+            const std::vector<Lit>& T = literals();
+            for (size_t j = 0; j < t.size() && ok; ++j)
+            {
+                ok = t[j] >= 0 && (size_t)t[j] < T.size() && T[(size_t)t[j]].bits16 >= 0;
+                if (!ok) break;
+                o.r[0].push_back(T[(size_t)t[j]].bits16);
+                o.limbs64(1, dbits(T[(size_t)t[j]].value));
+            }
+        }
         else ok = false;
         if (!ok)
         {
@@ -370,6 +537,7 @@ int main()
         }
         if (setrm) std::fesetround(FE_TONEAREST);
         emit(req, o);
+        arm_row_limit(0);
     }
     std::fflush(stdout);
     return 0;
